@@ -35,6 +35,10 @@ def templates():
         # a literal as the DIRECT argument of a function (a dialect-level rendering of the function must keep it a parameter)
         ("f1 eq floor({f})", "Float"), ("f1 lt ceiling({f})", "Float"), ("round({f}) le f1", "Float"), ("i1 eq length({s})", "String"),
         ("s1 eq tolower({s})", "String"), ("s1 eq toupper({s}) or s2 eq trim({s})", "String"), ("s1 eq substring({s}, 1)", "String"),
+        # a literal compared with a LITERAL (no column on either side), alone and inside and / or / not / in
+        ("{s} eq 'k'", "String"), ("'k' ne {s} and s1 eq 'x'", "String"), ("not ({s} lt 'm') or i1 eq 1", "String"), ("{i} lt 5", "Integer"), ("5 ge {i} and i1 gt 0", "Integer"),
+        ("{f} gt 1.5 or f1 lt 0.5", "Float"), ("{d} eq 2020-06-15", "Date"), ("2020-06-15 ne {d} and d1 ne null", "Date"), ("{dt} gt 2001-01-01T00:00:00Z", "DateTime"),
+        ("{g} eq 01234567-89ab-cdef-0123-456789abcdef", "GUID"), ("{s} in ('a', 'b') or s1 eq 'z'", "String"), ("{i} in (1, 2, 3)", "Integer"),
         ("length(trim({s})) eq 5", "String"), ("concat(trim({s}), 'x') eq s1", "String"), ("tolower(trim({s})) eq s1", "String"), ("indexof(s1, toupper({s})) eq 1", "String"),
         ("contains(s1, trim({s}))", "String"), ("substring(concat({s}, s1), 1) eq s2", "String"), ("length(concat(tolower({s}), toupper({s}))) gt i1", "String"),
         ("i1 eq year({d})", "Date"), ("i1 eq month({dt}) or i1 eq hour({dt})", "DateTime"), ("f1 gt floor({i})", "Integer"), ("i1 add length({s}) gt {i}", "String"),
